@@ -151,6 +151,11 @@ func isTokenText(v ssa.Value, depth int) bool {
 				}
 			}
 		}
+	case *ssa.Call:
+		// a string taken out of a caller's Go value by reflection is data too
+		if f := x.Call.StaticCallee(); f != nil && f.Pkg != nil && f.Pkg.Pkg.Path() == "reflect" && f.Name() == "String" && f.Signature.Recv() != nil && ssau.TypeName(f.Signature.Recv().Type()) == "Value" {
+			return true
+		}
 	case *ssa.Phi:
 		for _, e := range x.Edges {
 			if isTokenText(e, depth+1) {
@@ -167,7 +172,7 @@ func isTokenText(v ssa.Value, depth int) bool {
 
 // OwnTextAuth implements OWN-TEXTAUTH: a symbol token's text is authoritative.
 func OwnTextAuth(p *load.Program) *report.RuleResult {
-	r := newResult("OWN-TEXTAUTH", "a symbol token's text is authoritative: (i) text taken from a SymbolToken is never handed to a parameter that is interpreted as a '$n' symbol-ID reference; (ii) in the binary writer a token's LocalSID is turned into the ID to write only where its Text is known to be nil; (iii) the text reader applies the '$n' interpretation only to unquoted identifier tokens", 8)
+	r := newResult("OWN-TEXTAUTH", "a symbol token's text is authoritative: (i) text taken from a SymbolToken, or a string taken out of a caller's Go value by reflection, is never handed to a parameter that is interpreted as a '$n' symbol-ID reference; (ii) in the binary writer a token's LocalSID is turned into the ID to write only where its Text is known to be nil; (iii) the text reader applies the '$n' interpretation only to unquoted identifier tokens", 8)
 	ips := interpretingParams(p)
 	var names []string
 	for f, m := range ips {
@@ -213,7 +218,7 @@ func OwnTextAuth(p *load.Program) *report.RuleResult {
 							bad = append(bad, p.FuncName(callee))
 						}
 					}
-					what := sprintf("token text passed to %s (argument %d)", calleeNames(p, c), ai)
+					what := sprintf("symbol text passed to %s (argument %d)", calleeNames(p, c), ai)
 					if len(bad) == 0 {
 						r.OK(p.FuncName(fn), instrPos(p, in), what, "the callee does not interpret this parameter as a $n reference")
 					} else {
